@@ -185,6 +185,7 @@ struct LoopSpec {
   cont: &'static str, // effective continue condition `i OP bound`
   ir: R,        // declared range of i (all values i takes, including the exit value)
   init: Vec<(usize, R)>, // per accumulator parameter: the range allowed for the initial value
+  maxtrips: i64,
 }
 #[derive(Clone)]
 enum SK {
